@@ -489,6 +489,13 @@ def r_cancel_group_entry(ctx: Ctx, rule: str):
                     srcexpr = src1[1]
                     from_table = ctx.eff.paths(f).of(srcexpr) in (GROUPS + "[]", GROUPS)
                     ok = same and d1[0][2] == 0 and d2[0][2] == 1 and from_table
+            if ok is None and h.ast.args and isinstance(h.ast.args[0], ast.Starred) and len(h.ast.args) == 1:
+                # helper(*self._task_groups.popitem(), **kw): the (name, register) pair goes in as the first two positionals
+                sv = ctx.vals.resolve(f, h.ast.args[0].value)
+                first_two = t.param_names()[1:3] if t.param_names() and t.param_names()[0] == "self" else t.param_names()[:2]
+                if isinstance(sv, ast.Call) and isinstance(sv.func, ast.Attribute) and sv.func.attr == "popitem" and not sv.args \
+                        and ctx.eff.paths(f).of(sv.func.value) == GROUPS and first_two == ["group_name", "group_reg"]:
+                    ok = True
             rep.ob(rule, "the helper is applied to each (name, register) entry taken from the table", ok, node=h)
             if h.loops:
                 heads = [x for x in g.nodes if x.pred and x.op in ("iter", "loophead") and x.ast is h.loops[-1]]
@@ -571,6 +578,11 @@ def r_group_helper(ctx: Ctx, rule: str):
             if isinstance(st_, ast.Assign) and len(st_.targets) == 1 and isinstance(st_.targets[0], ast.Name) and st_.value is p.ast and len(p.ast.args) == 2 \
                     and isinstance(p.ast.args[1], ast.Constant) and p.ast.args[1].value is None:
                 tgt = st_.targets[0].id
+            if tgt is None and len(p.ast.args) == 2 and isinstance(p.ast.args[1], ast.Constant) and p.ast.args[1].value is None:
+                # the same through a walrus: `if (x := TABLE.pop(key, None)) is None: return`
+                we = next((x for x in ast.walk(st_) if isinstance(x, ast.NamedExpr) and x.value is p.ast and isinstance(x.target, ast.Name)), None) if st_ is not None else None
+                if we is not None:
+                    tgt = we.target.id
 
             def removed_something(a: Node, b: Node, lab: Label, tgt=tgt) -> bool:
                 if lab[0] not in NORMAL_KINDS:
@@ -592,9 +604,12 @@ def _none_test(e: ast.AST, name: str) -> Optional[bool]:
     if isinstance(e, ast.UnaryOp) and isinstance(e.op, ast.Not):
         v = _none_test(e.operand, name)
         return None if v is None else not v
+    if isinstance(e, ast.NamedExpr) and isinstance(e.target, ast.Name) and e.target.id == name:
+        return False  # `if (x := ...):`
     if isinstance(e, ast.Name) and e.id == name:
         return False
-    if isinstance(e, ast.Compare) and len(e.ops) == 1 and isinstance(e.left, ast.Name) and e.left.id == name and isinstance(e.comparators[0], ast.Constant) \
+    left = e.left.target if isinstance(e, ast.Compare) and isinstance(e.left, ast.NamedExpr) else (e.left if isinstance(e, ast.Compare) else None)
+    if isinstance(e, ast.Compare) and len(e.ops) == 1 and isinstance(left, ast.Name) and left.id == name and isinstance(e.comparators[0], ast.Constant) \
             and e.comparators[0].value is None:
         if isinstance(e.ops[0], (ast.Is, ast.Eq)):
             return True
